@@ -242,7 +242,15 @@ func (s *Sim) apply(a *Action, fault string) {
 		if c == nil {
 			return
 		}
-		s.grant(c, fault)
+		switch fault {
+		case "crash-before":
+			s.Crash()
+		case "crash-after":
+			s.grant(c, "")
+			s.Crash()
+		default:
+			s.grant(c, fault)
+		}
 		return
 	}
 	if a.A == "env" {
@@ -328,6 +336,10 @@ func (s *Sim) Chaos() {
 			}
 			if act.A == "grant" {
 				fault = s.drawFault(act.K)
+				if s.W.Cfg.TargetRollback && fault == "" && strings.HasPrefix(act.K, "eds update") && s.rngFault.Float64() < 0.35 {
+					fault = pick(s.rngFault, "reject", "lost", "crash-before", "crash-after")
+					s.Probe("c07.targeted-" + fault)
+				}
 			}
 		}
 		s.record(act, fault)
